@@ -10,6 +10,7 @@ preconditions (its `ASSERT`s) to the model through a generated inventory.
 import PcProps.C07
 import PcProps.C09
 import PcProps.C12
+import PcProps.C12Params
 import PcProps.C13
 import PcProps.C14
 import PcGen.AssertData
@@ -46,6 +47,15 @@ theorem s2_step_no_overflow_partial (cfg : S2.Config) (s : S2.State) (e : S2.Ev)
     (hsum : s.sum.natAbs ≤ 2 ^ 126 - 1) (htsum : e.tsum.natAbs ≤ 2 ^ 126) :
     S2.noOvf cfg s e = true := C09.s2_no_overflow_partial cfg s e hlow hthr hsz hsz' hsg hsg' hsum htsum
 
+/-- the tuning setters `set_alpha`, `set_alpha_y`, `set_alpha_z` are defined for EVERY double the API accepts (NaN, ±inf,
+    1e300): the float → int64 cast of `truncate3` is never reached with a value outside int64 (repaired; the unrepaired
+    code cast `alpha * 1000` for every `alpha ≥ 9.2233720368547758e15`, +inf and NaN — finding F6) -/
+theorem tuning_setters_defined (ge1 : Bool) (k : ℤ) (henv : TruncClampEnv ge1 k) :
+    ∃ r, setAlphaL2 ge1 k = .ok r := C12Params.set_alpha_total ge1 k henv
+
+example : TruncClampEnv true (10 ^ 18) ∧ TruncClampEnv false (2 ^ 1100) := by
+  constructor <;> intro h <;> simp_all
+
 /-! ### the source's declared preconditions -/
 
 /-- number of `ASSERT` sites per file -/
@@ -75,6 +85,7 @@ example : isqrtIntermediatesOk .i128 (2 ^ 126 + 1) (2 ^ 63) = true :=
 
 end Pc.C16
 
+#print axioms Pc.C16.tuning_setters_defined
 #print axioms Pc.C16.isqrt_no_overflow
 #print axioms Pc.C16.calculator_total
 #print axioms Pc.C16.c_buffer_in_bounds
